@@ -71,6 +71,11 @@ func c28Serve(conn net.Conn) {
 		case "handshake":
 			_ = send(&c28Resp{Seq: hd.Seq})
 		case "stream", "monitor", "query":
+			// a subscription the agent refuses (invalid filter / log level): an error header and nothing else
+			if strings.Contains(strings.ToLower(fmt.Sprintf("%s", body)), "refuse-me") {
+				_ = send(&c28Resp{Seq: hd.Seq, Error: "refused"})
+				continue
+			}
 			_ = send(&c28Resp{Seq: hd.Seq})
 			go func(seq uint64, kind string) {
 				i := 0
@@ -144,6 +149,9 @@ func c28Gen(rng *rand.Rand, tier string) []Case {
 	// after Close (second deregistration of the same handler)
 	for i, k := range []string{"stream", "monitor", "query"} {
 		out = append(out, Case{ID: fmt.Sprintf("slow%d", i), Ops: []string{fmt.Sprintf("race %s slowstop %d %d", k, iters/4, rng.Int63())}, Nontrivial: true, Tags: []string{k + "-slowstop"}})
+		if k != "query" {
+			out = append(out, Case{ID: fmt.Sprintf("rf%d", i), Ops: []string{fmt.Sprintf("race %s refused %d %d", k, iters/4, rng.Int63())}, Nontrivial: true, Tags: []string{k + "-refused"}})
+		}
 		out = append(out, Case{ID: fmt.Sprintf("cc%d", i), Ops: []string{fmt.Sprintf("race %s closeclose %d %d", k, iters, rng.Int63())}, Nontrivial: true, Tags: []string{k + "-closeclose"}})
 		out = append(out, Case{ID: fmt.Sprintf("cs%d", i), Ops: []string{fmt.Sprintf("race %s closestop %d %d", k, iters/4, rng.Int63())}, Nontrivial: true, Tags: []string{k + "-closestop"}})
 	}
@@ -209,6 +217,10 @@ func c28Race(kind, end string, iters int, seed int64) string {
 		}
 		done := make(chan struct{})
 		var h client.StreamHandle
+		filter, level := "*", "DEBUG"
+		if end == "refused" {
+			filter, level = "refuse-me", "REFUSE-ME"
+		}
 		switch kind {
 		case "stream":
 			ch := make(chan map[string]any, 4)
@@ -217,7 +229,7 @@ func c28Race(kind, end string, iters int, seed int64) string {
 				}
 				close(done)
 			}()
-			h, err = cl.Stream("*", ch)
+			h, err = cl.Stream(filter, ch)
 		case "monitor":
 			ch := make(chan string, 4)
 			go func() {
@@ -225,7 +237,7 @@ func c28Race(kind, end string, iters int, seed int64) string {
 				}
 				close(done)
 			}()
-			h, err = cl.Monitor(logutils.LogLevel("DEBUG"), ch)
+			h, err = cl.Monitor(logutils.LogLevel(level), ch)
 		default:
 			ack := make(chan string, 4)
 			resp := make(chan client.NodeResponse, 4)
@@ -237,6 +249,24 @@ func c28Race(kind, end string, iters int, seed int64) string {
 				close(done)
 			}()
 			err = cl.Query(&client.QueryParam{Name: "q", RequestAck: true, AckCh: ack, RespCh: resp})
+		}
+		if end == "refused" && kind != "query" {
+			// the agent refused: the call reports the error, the subscriber channel is closed exactly once (a second
+			// close would panic), and a later Stop / Close of the client finds nothing left to clean up
+			if err == nil {
+				return "refusal-not-reported"
+			}
+			_ = cl.Stop(h)
+			if i%2 == 1 {
+				_ = cl.Close()
+				cl = nil
+			}
+			select {
+			case <-done:
+				closed++
+			case <-time.After(2 * time.Second):
+			}
+			continue
 		}
 		if err != nil {
 			return "subscribe-error " + err.Error()
@@ -292,7 +322,7 @@ func c28Race(kind, end string, iters int, seed int64) string {
 func init() {
 	register(&Prop{
 		ID: "C28",
-		Rule: "the real RPC client against an in-process fake agent that floods stream/monitor/query records (and keeps flooding for 3 ms after a stop request); per case 40 (thorough 200) subscribe→random delay→Stop or Close iterations (also: eight goroutines closing the client at once, then a request on the closed client); " +
+		Rule: "the real RPC client against an in-process fake agent that floods stream/monitor/query records (and keeps flooding for 3 ms after a stop request); per case 40 (thorough 200) subscribe→random delay→Stop or Close iterations (also: eight goroutines closing the client at once, then a request on the closed client; subscriptions the agent refuses, followed by Stop / Close); " +
 			"every case is non-trivial (records race with Stop/Close); distinct = distinct (kind, end, seed)",
 		Gen:     c28Gen,
 		Exec:    c28Exec,
